@@ -509,6 +509,16 @@ def pairs():
                 return case
             out.append(('%s(%s)' % (how, period), make()))
 
+    @add('interval(1)[body took exactly one period]')
+    async def _(b):
+        it = usim.interval(1)
+        await it.__anext__()
+        await (time + 1)
+        await b.probe('interval(1) step[body took exactly one period]', lambda: it.__anext__())
+        await (time + 0.5)
+        await b.probe('interval(1) step[body took half a period]', lambda: it.__anext__())
+        await it.aclose()
+
     # ---- collect / first ----
     @add('collect[empty]')
     async def _(b):
